@@ -166,6 +166,26 @@ fn check(ctx: &Ctx, m: &ModelGame, label: &str, counting: bool) -> Result<(), Fa
 			return Err(fail("validity", format!("P{} leader validity bits differ from presence", pv.port + 1)));
 		}
 	}
+	// a skip-frames read yields zero rows: its export must still have the full per-version schema
+	if m.end.bytes().is_some() && (rows + bytes.len()) % 3 == 0 {
+		for (which, sk) in [("slp", rt::slp_read(&bytes, true, false))] {
+			if let rt::Out::Ok(sg) = sk {
+				let socc = port_occupancy(&sg.start);
+				match rt::guard(|| Ok::<_, String>(sg.frames.into_struct_array(version, &socc))) {
+					rt::Out::Ok(a) => {
+						if !same_shape(a.data_type(), &want) || a.len() != 0 {
+							return Err(fail("skip_schema", format!("export of a skip-frames ({}) game: {} rows, schema {}", which, a.len(), first_schema_diff(a.data_type(), &want))));
+						}
+					}
+					rt::Out::Panic(p) => return Err(fail(&format!("skip_export panic~{}", rt::panic_site(&p)), format!("exporting the zero-row frames of a skip-frames ({}) read panicked: {}", which, p))),
+					rt::Out::Err(e) => return Err(fail("skip_export err", e)),
+				}
+				if counting {
+					ctx.class("zero_row_export_of_skip_frames_game");
+				}
+			}
+		}
+	}
 	// import again -> identical .slp
 	let back = match rt::guard(|| Ok::<_, String>(Frame::from_struct_array(arr, version))) {
 		rt::Out::Ok(f) => f,
